@@ -146,6 +146,22 @@ XmppSocket::XmppSocket(QObject *parent)
 {
 }
 
+// Number of trailing bytes that start a UTF-8 sequence which is not complete yet.
+static int incompleteUtf8SuffixLength(const QByteArray &data)
+{
+    const int size = data.size();
+    for (int back = 1; back <= 3 && back <= size; ++back) {
+        const auto c = uchar(data.at(size - back));
+        if ((c & 0xC0) == 0x80) {
+            // continuation byte, look for its lead byte
+            continue;
+        }
+        const int sequenceLength = c >= 0xF0 ? 4 : (c >= 0xE0 ? 3 : (c >= 0xC0 ? 2 : 1));
+        return sequenceLength > back ? back : 0;
+    }
+    return 0;
+}
+
 void XmppSocket::setSocket(QSslSocket *socket)
 {
     m_socket = socket;
@@ -161,6 +177,7 @@ void XmppSocket::setSocket(QSslSocket *socket)
         // do not emit started() with direct TLS (this happens in encrypted())
         if (!m_directTls) {
             m_dataBuffer.clear();
+            m_undecodedBytes.clear();
             m_streamOpenElement.clear();
             Q_EMIT started();
         }
@@ -169,6 +186,7 @@ void XmppSocket::setSocket(QSslSocket *socket)
         debug(u"Socket encrypted"_s);
         // this happens with direct TLS or STARTTLS
         m_dataBuffer.clear();
+        m_undecodedBytes.clear();
         m_streamOpenElement.clear();
         Q_EMIT started();
     });
@@ -176,7 +194,14 @@ void XmppSocket::setSocket(QSslSocket *socket)
         warning(u"Socket error: "_s + m_socket->errorString());
     });
     QObject::connect(socket, &QSslSocket::readyRead, this, [this]() {
-        processData(QString::fromUtf8(m_socket->readAll()));
+        // a read may end inside a multi-byte UTF-8 sequence: keep its first bytes for the next read
+        QByteArray bytes = m_undecodedBytes + m_socket->readAll();
+        const auto keep = incompleteUtf8SuffixLength(bytes);
+        m_undecodedBytes = bytes.right(keep);
+        bytes.chop(keep);
+        if (!bytes.isEmpty()) {
+            processData(QString::fromUtf8(bytes));
+        }
     });
 }
 
